@@ -96,6 +96,7 @@ Section TaskEnv.
     inv_step HC. destruct (negb (allowed_bool a)); [discriminate|].
     destruct (m_context_id binary) as [bin_ctx|]; cbn [opt_unwrap rbind] in HC; [|discriminate].
     inv_step HC. destruct a0 as [anc|]; [|discriminate].
+    destruct (shadowed b builder binary); [discriminate|].
     destruct (resolve_build b builder (c_name bctx) binary select _) as [rst| | |] eqn:Er; try discriminate.
     destruct (m_relpath binary) as [relpath|]; cbn [opt_unwrap rbind] in HC; [|discriminate].
     destruct (flatten_with_opts_option (c_var_options bctx) (global_env b le builder bctx binary (sel rst) relpath cli_env)) as [gflat| | |] eqn:Eg;
